@@ -52,8 +52,20 @@ TEXTS = [
     "import pk.deep.leaf\nlf = pk.deep.leaf.f1\nlg = pk.deep.leaf\n",
     "import os\n_hidden = 1\n",
     "",
+    "from a import *\nst = 0\n",
+    "from pq.n import *\nfrom pk.m import *\n",
 ]
 NAMES = ["a", "b", "c", "d", "e"]
+
+
+def _text_for(path, idx):
+    """TEXTS[idx], except that a module is never made to star-import itself (a degenerate cycle whose resolution depends on
+    which module happens to be analysed first - not a cache question)"""
+    text = TEXTS[idx % len(TEXTS)]
+    me = path[:-3].replace("/", ".") if path.endswith(".py") else None
+    if "import *" in text and me and ("from %s import *" % me) in text:
+        return TEXTS[0]
+    return text
 
 
 @st.composite
@@ -62,7 +74,9 @@ def cases(draw):
             # a second package, imported by e.py: files move between two packages that are both cached
             "pq/": None, "pq/__init__.py": "", "pq/n.py": TEXTS[1], "e.py": TEXTS[12],
             # a package nested two levels deep, reached through the dotted chain pk.deep.leaf
-            "pk/deep/": None, "pk/deep/__init__.py": "", "pk/deep/leaf.py": "def f1():\n    return 1\n", "g.py": TEXTS[14]}
+            "pk/deep/": None, "pk/deep/__init__.py": "", "pk/deep/leaf.py": "def f1():\n    return 1\n", "g.py": TEXTS[14],
+            # a module whose name merely starts with a package's name
+            "pkx.py": "yy = 1\ndef f_x():\n    return 2\n"}
     if draw(st.booleans()):
         tree["d.py"] = draw(st.sampled_from(TEXTS[:11]))
     n = draw(st.integers(6, 16))
@@ -200,6 +214,10 @@ def observe(project, root, which=None):
                 objs[n] = _safe(oattrs)
             out["defs"] = defs
             out["object_attrs"] = objs
+            # the module's global scope (what name lookups, completion and occurrence search go through)
+            import builtins as _b
+
+            out["scope_names"] = _safe(lambda: sorted(n for n in pm.get_scope().get_names() if not hasattr(_b, n)))
             src = pm.source_code
             # occurrences of the first identifier-looking global
             if attrs:
@@ -333,7 +351,7 @@ def evaluate(case, env):
                     mutated = False
                 elif kind == "write" and pyfiles:
                     p = pick(pyfiles, op[1], op)
-                    project.get_resource(p).write(TEXTS[op[2] % len(TEXTS)])
+                    project.get_resource(p).write(_text_for(p, op[2]))
                     focus[0] = p
                 elif kind == "create":
                     parent, name = new_file_place(op, dirs, op[2])
@@ -413,7 +431,7 @@ def evaluate(case, env):
                     p = pick(pyfiles, op[1], op)
                     focus[0] = p
                     with open(os.path.join(root, p), "w") as f:
-                        f.write(TEXTS[op[2] % len(TEXTS)])
+                        f.write(_text_for(p, op[2]))
                     tick(os.path.join(root, p))
                     project.validate(project.root)
                     feats.add("external")
@@ -437,7 +455,7 @@ def evaluate(case, env):
                     p = pick(pyfiles, op[1], op)
                     focus[0] = p
                     with open(os.path.join(root, p), "w") as f:
-                        f.write(TEXTS[op[2] % len(TEXTS)])
+                        f.write(_text_for(p, op[2]))
                     old_clock[0] += 5
                     os.utime(os.path.join(root, p), (old_clock[0], old_clock[0]))
                     project.validate(project.root)
@@ -570,7 +588,7 @@ def _first_difference(a, b):
         if ma.get(p) != mb.get(p):
             x, y = ma.get(p), mb.get(p)
             if isinstance(x, dict) and isinstance(y, dict):
-                for k in ("source", "attrs", "defs", "object_attrs", "occurrences"):
+                for k in ("source", "attrs", "defs", "object_attrs", "scope_names", "occurrences"):
                     if x.get(k) != y.get(k):
                         return k, "%s %s: long-lived %s, fresh %s" % (p, k, _short(x.get(k)), _short(y.get(k)))
             return "module", "%s: long-lived %s, fresh %s" % (p, _short(x), _short(y))
